@@ -27,7 +27,9 @@ pub const TARGETS: [&str; 5] = ["enc", "stream", "rs", "bitmap", "script"];
 pub fn targets_for(prop: &str) -> &'static [&'static str] {
     match prop {
         "C01" | "C02" | "C10" | "C11" | "C12" | "C13" | "C14" | "C16" | "C18" | "C19" => &["enc"],
-        "C03" | "C09" => &["rs"],
+        "C03" | "C06" | "C09" => &["rs"],
+        "C07" => &["bitmap"],
+        "C15" => &["stream"],
         "C04" => &["script"],
         "C05" => &["stream", "rs", "bitmap"],
         "C08" | "C17" => &["bitmap"],
@@ -263,6 +265,12 @@ fn rs_checks(prop: &str, c: &RsCase) -> Option<(&'static str, AnyCase, Verdict)>
             props::c03::check_word(c)
         }
         "C05" => props::c05::check_rs(c),
+        "C06" => {
+            // the data part of the received word is an arbitrary data vector of the right length
+            let d = props::c06::RsData { sym: c.sym, data: c.received[..c.sym().data].to_vec(), stratum: "fuzz" };
+            let v = props::c06::check(&d);
+            return Some(("rsdata", AnyCase::RsData(d), v));
+        }
         "C09" => props::c09::check(c),
         _ => return None,
     };
@@ -320,6 +328,23 @@ pub fn decode_bitmap(bytes: &[u8]) -> BitmapCase {
     }
 }
 
+/// the codeword vector behind the framed kinds of the bitmap target (kind % 4 >= 2)
+pub fn decode_bitmap_cw(bytes: &[u8]) -> Option<props::c07::CwCase> {
+    let kind = *bytes.first()?;
+    if kind % 4 < 2 {
+        return None;
+    }
+    let a = *bytes.get(1)? as usize;
+    let rest = bytes.get(3..).unwrap_or(&[]);
+    let sym = &SYMBOLS[a % 48];
+    let total = sym.total();
+    let mut cw: Vec<u8> = (0..total).map(|i| rest.get(i).copied().unwrap_or(129)).collect();
+    if kind % 4 == 3 {
+        cw = codeword_for(sym, &cw[..sym.data]);
+    }
+    Some(props::c07::CwCase { sym: a % 48, cw, stratum: "fuzz" })
+}
+
 fn bitmap_checks(prop: &str, c: &BitmapCase) -> Option<(&'static str, AnyCase, Verdict)> {
     let v = match prop {
         "C05" => props::c05::check_bitmap(c),
@@ -349,6 +374,9 @@ pub enum AnyCase {
     Str(StrCase),
     Bytes(BytesCase),
     Rs(RsCase),
+    RsData(props::c06::RsData),
+    Cw(props::c07::CwCase),
+    Payload(props::c15::EciPayload),
     Bitmap(BitmapCase),
     Script(props::c04::ScriptCase),
 }
@@ -360,6 +388,9 @@ impl AnyCase {
             AnyCase::Str(c) => c.to_json(),
             AnyCase::Bytes(c) => c.to_json(),
             AnyCase::Rs(c) => c.to_json(),
+            AnyCase::RsData(c) => c.to_json(),
+            AnyCase::Cw(c) => c.to_json(),
+            AnyCase::Payload(c) => c.to_json(),
             AnyCase::Bitmap(c) => c.to_json(),
             AnyCase::Script(c) => c.to_json(),
         }
@@ -374,8 +405,28 @@ pub struct Outcome {
 }
 
 const ENC_PROPS: [&str; 10] = ["C01", "C02", "C10", "C11", "C12", "C13", "C14", "C16", "C18", "C19"];
-const RS_PROPS: [&str; 3] = ["C03", "C05", "C09"];
+const RS_PROPS: [&str; 4] = ["C03", "C05", "C06", "C09"];
 const BITMAP_PROPS: [&str; 3] = ["C05", "C08", "C17"];
+
+/// stream target as ECI payload (C15): [macro selector] then segments [eci selector, flags|len, bytes..]
+pub fn decode_payload(bytes: &[u8]) -> props::c15::EciPayload {
+    let mut c = Cur { b: bytes, i: 0 };
+    let m = c.u8();
+    let macro_cw = match m % 8 { 0 => Some(236), 1 => Some(237), _ => None };
+    let mut segs = Vec::new();
+    while c.i < bytes.len() && segs.len() < 4 {
+        let e = c.u8();
+        let f = c.u8();
+        let len = (f & 15) as usize;
+        let eci = if segs.is_empty() && e & 0x80 != 0 { None } else { Some([3u32, 11, 13, 26, 27, 26, 0, 26][(e % 8) as usize]) };
+        let payload: Vec<u8> = (0..len).map(|_| c.u8()).collect();
+        segs.push((eci, payload, f & 0x10 != 0));
+    }
+    if segs.is_empty() {
+        segs.push((None, Vec::new(), false));
+    }
+    props::c15::EciPayload { segs, macro_cw }
+}
 
 /// Decode `bytes` for `target` and run the oracles of the selected properties (all of the
 /// target's properties if `only` is None).  `ctx` is needed by C10 (known findings).
@@ -394,6 +445,11 @@ pub fn run_bytes(target: &str, bytes: &[u8], only: Option<&str>, ctx: Option<&Ct
             }
         }
         "stream" => {
+            if only == Some("C15") {
+                let c = decode_payload(bytes);
+                let verdict = props::c15::check_payload(&c);
+                out.push(Outcome { prop: "C15", kind: "payload", case: AnyCase::Payload(c), verdict });
+            }
             if sel("C05") {
                 let c = decode_stream(bytes);
                 let verdict = props::c05::check_stream(&c);
@@ -411,6 +467,21 @@ pub fn run_bytes(target: &str, bytes: &[u8], only: Option<&str>, ctx: Option<&Ct
             }
         }
         "bitmap" => {
+            if only == Some("C07") {
+                if let Some(cw) = decode_bitmap_cw(bytes) {
+                    let verdict = props::c07::check_values(&cw);
+                    out.push(Outcome { prop: "C07", kind: "cw", case: AnyCase::Cw(cw), verdict });
+                }
+            }
+            if sel("C08") {
+                if let Some(cw) = decode_bitmap_cw(bytes) {
+                    let verdict = props::c08::check_forward(&cw);
+                    if !matches!(verdict, Verdict::Pass(_)) {
+                        out.push(Outcome { prop: "C08", kind: "cw", case: AnyCase::Cw(cw), verdict });
+                        return out;
+                    }
+                }
+            }
             let c = decode_bitmap(bytes);
             for p in BITMAP_PROPS {
                 if sel(p) {
